@@ -120,8 +120,14 @@ def _impact_app(nx):
             x = x.ravel() + 0.1*dx*(rng.random_sample(x.size) - 0.5)
             # lowest fluid row 0.3 dx outside the support (2 h = 2.4 dx) of the top bed row at y = 0
             y = y.ravel() + 2.7*dx + 0.05*dx*rng.random_sample(y.size)
-            fluid = get_particle_array_wcsph(name='fluid', x=x, y=y, m=np.ones_like(x)*dx*dx*rho0, h=np.ones_like(x)*hdx*dx,
-                                             rho=np.ones_like(x)*rho0, v=-np.ones_like(x))
+            top_first = np.argsort(-y, kind='stable')
+            x, y = x[top_first], y[top_first]
+            hf = np.ones_like(x)*hdx*dx
+            mf = np.ones_like(x)*dx*dx*rho0
+            # a coarse patch listed first (the top row, far from the bed): the particles with the largest h have the lowest indices
+            hf[:nx] *= 1.6
+            mf[:nx] *= 2.0
+            fluid = get_particle_array_wcsph(name='fluid', x=x, y=y, m=mf, h=hf, rho=np.ones_like(x)*rho0, v=-np.ones_like(x))
             bx, by = np.mgrid[-dx:1.0 + dx:dx, -2*dx:dx/2:dx]
             bx, by = bx.ravel(), by.ravel()
             bed = get_particle_array_wcsph(name='bed', x=bx, y=by, m=np.ones_like(bx)*dx*dx*rho0, h=np.ones_like(bx)*hdx*dx,
@@ -150,7 +156,7 @@ def make_app(problem, valid_gids):
         from pysph.examples.elliptical_drop import EllipticalDrop as Base
     elif problem == 'cavity':
         from pysph.examples.cavity import LidDrivenCavity as Base
-    elif problem == 'tg':
+    elif problem in ('tg', 'tg_gtvf'):
         from pysph.examples.taylor_green import TaylorGreen as Base
     elif problem == 'adapth':
         Base = _adaptive_h_app(_NX[0])
@@ -185,6 +191,9 @@ def problem_args(problem, nx):
         return ['--nx', str(nx)]
     if problem == 'tg':
         return ['--nx', str(nx), '--scheme', 'tvf']
+    if problem == 'tg_gtvf':
+        # the GTVF integrator makes its first evaluation of a step without refreshing the neighbours itself
+        return ['--nx', str(nx), '--scheme', 'gtvf']
     if problem == 'sod':
         return ['--nl', str(nx), '--scheme', 'mpm']
     raise ValueError(problem)
